@@ -1461,7 +1461,11 @@ pub fn gen_customs(m: &mut MSpec, rng: &mut Rng) {
             m.customs.push(CustomSpec { name, data, before: *rng.pick(&places) });
             continue;
         }
-        let name = if rng.chance(1, 6) && i > 0 { m.customs[rng.below(m.customs.len() as u64) as usize].name.clone() } else { rng.pick(&NAMES).to_string() };
+        let mut name = if rng.chance(1, 6) && i > 0 { m.customs[rng.below(m.customs.len() as u64) as usize].name.clone() } else { rng.pick(&NAMES).to_string() };
+        if name.starts_with(".debug") {
+            // the payload below is junk: never under an interpreted name
+            name = "zzz".to_string();
+        }
         let len = rng.below(40) as usize;
         let tag = fnv64(&[i as u8, rng.next() as u8, rng.next() as u8, rng.next() as u8]);
         let mut data: Vec<u8> = tag.to_le_bytes().to_vec();
